@@ -237,7 +237,7 @@ fn process_run__spec_reaches_runner_unchanged() {
 //                     another string at once, which is what makes a use-after-return visible
 // =====================================================================================================
 const SLOT: usize = 8;
-const MAXS: usize = 12;
+const MAXS: usize = if THOROUGH { 24 } else { 12 };
 static mut SLOT_PTR: [usize; MAXS] = [0; MAXS];
 static mut SLOT_LIVE: [bool; MAXS] = [false; MAXS];
 static mut SLOT_FREED: [u8; MAXS] = [0; MAXS];
@@ -369,9 +369,9 @@ fn cow_promote_case(residence: u8, n: usize) {
     std::mem::forget(rt);
 }
 
-// @harness property=C02 fn=ArenaCow::promote kind=bounded tier=quick cfg=release timeout=900 domain="bounded: all six residences (source text, frame borrowed/owned, pool borrowed/owned, persistent owned) x lengths {1, 3} (concrete shapes) with every ASCII-letter content (symbolic); pool through its contracts"
+// @harness property=C02 fn=ArenaCow::promote kind=bounded tier=quick cfg=release timeout=1800 domain="bounded: all six residences (source text, frame borrowed/owned, pool borrowed/owned, persistent owned) x lengths {1, 3} ({1, 2, 3} for every residence in the thorough tier) with every ASCII-letter content (symbolic); pool through its contracts"
 #[kani::proof]
-#[kani::unwind(26)]
+#[kani::unwind(30)]
 #[kani::stub(PoolSet::alloc_str, alloc_str__contract)]
 #[kani::stub(PoolSet::contains, contains__contract)]
 #[kani::stub(PoolSet::dealloc, dealloc__contract)]
@@ -392,6 +392,17 @@ fn cow_promote__contract() {
     cow_promote_case(1, 1);
     cow_promote_case(2, 1);
     cow_promote_case(3, 1);
+    if THOROUGH {
+        // thorough tier: every residence also with lengths 1 and 2
+        cow_promote_case(0, 2);
+        cow_promote_case(1, 2);
+        cow_promote_case(2, 2);
+        cow_promote_case(3, 2);
+        cow_promote_case(4, 2);
+        cow_promote_case(5, 2);
+        cow_promote_case(4, 1);
+        cow_promote_case(5, 1);
+    }
     kani::cover!(true, "cover: all residences exercised");
 }
 
